@@ -537,6 +537,7 @@ impl Property for C15 {
                     sh.pending_finally.set(0);
                     sh.e11_armed.set(false);
                     sh.steps.set(0);
+                    sh.text_bytes.set(0);
                     rctx.fs.try_depth.set(0);
                     let rend = run_snippet(&rctx, &rmain, stmts);
                     let rout = RefOutcome {
